@@ -405,6 +405,23 @@ func ruleSecureOrder(c *Ctx) {
 		c.R.Violate("R-ORDER/O1", p.Pos(f.Node()), f.Name, "checksum gate", "Start does not call SecureConfig.Check with both results bound", nil)
 		return
 	}
+	// the check runs with the client lock held: SecureConfig.Hash is one object
+	// that every Start of this configuration writes into - two checks at the same
+	// time mix their input, so a good binary is refused or (worse) the digest
+	// compared belongs to neither file
+	{
+		heldL := false
+		for v := range p.MustHeldAt(f, chkN) {
+			if p.lockName(v) == "Client.l" {
+				heldL = true
+			}
+		}
+		if heldL {
+			c.R.Hold("R-ORDER/O1", p.Pos(chkN.Ast), f.Name, "checksum computed under the client lock", "Client.l is certainly held at the call of SecureConfig.Check", true)
+		} else {
+			c.R.Violate("R-ORDER/O1", p.Pos(chkN.Ast), f.Name, "checksum computed under the client lock", "SecureConfig.Check is called without Client.l held: concurrent Start/Client calls feed the one shared SecureConfig.Hash at the same time, and the digest that is compared is that of neither binary", nil)
+		}
+	}
 	// the command checked is the command launched
 	same := cmdV != nil
 	for n := range si.launch {
